@@ -26,10 +26,12 @@ pub(crate) fn format_docstring(docstring: String) -> String {
 
     let lines = &lines[start..end];
 
-    // Find minimum indentation (excluding first line if it's not empty)
+    // Find minimum indentation. The docstring's own first line (the text right after the opening
+    // quotes) doesn't count; when the docstring starts with a line break, the first text line is
+    // an ordinary indented line and takes part in the margin (as in `inspect.cleandoc`).
     let mut min_indent = usize::MAX;
     for (i, line) in lines.iter().enumerate() {
-        if i == 0 && !line.trim().is_empty() {
+        if i == 0 && start == 0 {
             continue; // First line indentation doesn't count
         }
 
